@@ -189,6 +189,37 @@ Section ReactExt.
         * destruct b2; [discriminate|]. destruct (nth_error results ix) as [r|]; [|discriminate].
           simpl in H. inversion H; subst m. discriminate.
   Qed.
+
+  (* the specification never fails "late": every failure of it is a failure of the run itself *)
+  Lemma spec_not_late : forall script budget hist e,
+    t_out (react_spec script budget hist) <> Failed (ELate e).
+  Proof.
+    induction script as [|s script IH]; intros budget hist e.
+    - destruct budget; simpl; discriminate.
+    - destruct budget as [|b1]; [simpl; discriminate|].
+      destruct s as [|content calls chunks]; [simpl; discriminate|].
+      destruct calls as [|c0 calls']; [simpl; discriminate|].
+      remember (c0 :: calls') as calls. assert (Hne : calls <> []) by (subst; discriminate).
+      destruct b1 as [|b2]; [rewrite spec_unfold_calls_1 by auto; simpl; discriminate|].
+      rewrite spec_unfold_calls by auto.
+      rewrite out_tr_input, out_tr_emit, out_tr_round.
+      destruct (tn calls) as [results| |]; try (simpl; discriminate).
+      rewrite out_tr_emit.
+      destruct (rd_index_of calls) as [ix|].
+      + destruct b2; [simpl; discriminate|]. destruct (nth_error results ix); simpl; discriminate.
+      + apply IH.
+  Qed.
+
+  Theorem spec_future_closed_iff_final : forall script budget hist,
+    future_closed (react_spec script budget hist) = true
+    <-> exists m, t_out (react_spec script budget hist) = Final m.
+  Proof.
+    intros. unfold future_closed.
+    pose proof (spec_not_late script budget hist) as H.
+    destruct (t_out (react_spec script budget hist)) as [m|e]; split; intros G; eauto.
+    - destruct e; try discriminate. exfalso. eapply H. reflexivity.
+    - destruct G as [m G]. discriminate.
+  Qed.
 End ReactExt.
 
 (* ---- the same statements for the graph-level model ---------------------------------------- *)
@@ -226,6 +257,14 @@ Section AgentExt.
     t_out (agent_run checker md max_steps script input) = Final m -> m_role m = RAssistant ->
     exists pre, t_emits (agent_run checker md max_steps script input) = (pre ++ [m])%list.
   Proof. intros until m. intros HF. rewrite agent_refines_spec by auto. apply emits_end_with_plain_answer. Qed.
+
+  (* the message future of a run is closed exactly when the run returns an answer (for runs inside
+     the refinement's domain: no tool stream failing after it was opened) *)
+  Theorem agent_future_closed_iff_final : forall checker md script max_steps input,
+    Forall (reply_exact checker md) script ->
+    future_closed (agent_run checker md max_steps script input) = true
+    <-> exists m, t_out (agent_run checker md max_steps script input) = Final m.
+  Proof. intros. rewrite agent_refines_spec by auto. apply spec_future_closed_iff_final. Qed.
 End AgentExt.
 
 (* ---- the default checker is exact except on "content before the tool call" --------------- *)
